@@ -58,6 +58,7 @@ cls_has = Function("cls_has", Cls, Str, Bool)          # the class provides the 
 cls_get = Function("cls_get", Ref, Str, Ref)           # value of a class-provided attribute on an instance
 adj_keys = Function("adj_keys", Ref, RSeq)           # the keys of an adjacency dictionary, in insertion order (A9)
 adj_row = Function("adj_row", Ref, Ref, RSeq)        # the (materialised) iterable stored under a key
+row_cells = Function("row_cells", Ref, RSeq)          # the cells of one row object of a matrix argument (list of lists)
 meta_of = Function("meta_of", Cls, Ref)              # the metaclass object of a class
 cls_ref = Function("cls_ref", Cls, Ref)              # a class seen as a value (dictionary key)
 cls_unref = Function("cls_unref", Ref, Cls)
